@@ -168,6 +168,19 @@ func m05Unmarshal(data []byte, v any) error {
 			vMapPutIf(*dst, name, val, pr)
 		}
 		return nil
+	case *map[string]json.RawMessage:
+		// key presence only (the raw value text is the JSON library's business)
+		if *dst == nil {
+			*dst = map[string]json.RawMessage{}
+		}
+		for name, pr := range present {
+			val := json.RawMessage("1")
+			if name == m05PrinsName && src.Principals == nil {
+				val = json.RawMessage("null")
+			}
+			vMapPutIf(*dst, name, val, pr)
+		}
+		return nil
 	}
 	panic("m05Unmarshal: unexpected destination type")
 }
